@@ -22,7 +22,8 @@ package main
 //	ins <id> <path> <hexval>   Insert                         -> "ok <root> ev=<event stream>" | errkind
 //	del <id> <path>            Delete                         -> "ok <root> ev=<event stream>" | notpresent | ...
 //	get <id> <path>            GetNodeValueRaw                -> "ok <hex>" | notpresent | ...
-//	merge <id>                 parent.MergeMPTChanges(child)  -> "ok <parent root>" | stale | err   (ok closes the child)
+//	merge <id> [raw] [keep]    parent.MergeMPTChanges(child), or with `raw` parent.MergeChanges(child.GetChanges())
+//	                           -> "ok <parent root>" | stale | err   (ok closes the child unless `keep`)
 //	discard <id>               drop the trie and its descendants -> ok
 //	observe <id>               -> "ok root=<r> iter=<pairs> changes=<new[<old],...> deletes=<k,...> cur=<k,...> gone=<k,...>"
 //	save                       block.SaveChanges(ctx, pndb, false); pndb.RecordDeadNodes(block.GetDeletes(), version)
@@ -61,6 +62,7 @@ import (
 	"sort"
 	"strconv"
 	"strings"
+	"time"
 
 	"github.com/0chain/common/core/util"
 	"github.com/linxGnu/grocksdb"
@@ -934,6 +936,15 @@ func (s *storeRun) exec(op string) string {
 		}
 		p := s.tries[c.parent]
 		s.roundOps = append(s.roundOps, op)
+		raw, keep := false, false
+		for _, fl := range f[2:] {
+			switch fl {
+			case "raw": // through the exported MergeChanges(child.GetChanges()) instead of MergeMPTChanges(child)
+				raw = true
+			case "keep": // the child stays open after an accepted merge (it may go on and be merged again)
+				keep = true
+			}
+		}
 		pSnap := p.snap
 		newRoot, changes, deletes, startRoot := c.mpt.GetChanges()
 		overlap := adversarialOrder(changes)
@@ -942,7 +953,8 @@ func (s *storeRun) exec(op string) string {
 		}
 		out := guard(func() string {
 			var err error
-			if overlap {
+			if overlap || raw {
+				// raw: both entry points are the API and must apply the same guards.
 				// fixed defect (corpus/C03/fixed_merge_order.ops): MergeMPTChanges hands mergeChanges the child's
 				// changes in Go map order; before the fix the outcome depended on that order when a key is the New
 				// of one change and the Old of another. The exported MergeChanges takes the changes as a slice:
@@ -958,6 +970,9 @@ func (s *storeRun) exec(op string) string {
 		})
 		if overlap {
 			s.tags["merge-new-old-overlap"] = true
+		}
+		if raw {
+			s.tags["merge-raw"] = true
 		}
 		parentMoved := p.muts != c.parentMuts
 		switch {
@@ -975,7 +990,11 @@ func (s *storeRun) exec(op string) string {
 			if !bytes.Equal(p.mpt.GetRoot(), c.mpt.GetRoot()) {
 				s.fail("C03", "after merge the parent's root %s differs from the child's root %s", rootStr(p.mpt.GetRoot()), rootStr(c.mpt.GetRoot()))
 			}
-			s.closeTrie(c.id)
+			if keep {
+				s.tags["merge-keep"] = true
+			} else {
+				s.closeTrie(c.id)
+			}
 			if !s.sub {
 				s.checkView(p, "parent after merge")
 				s.frame(map[int]bool{p.id: true}, p.id)
@@ -1017,6 +1036,76 @@ func (s *storeRun) exec(op string) string {
 			return "bad-op"
 		}
 		return s.observe(t)
+
+	case "save-timeout":
+		// SaveChanges leaves through ctx.Done() while its batch is stalled in the store. Variant a: the stall is
+		// released and the stalled writer finishes before anything else happens. Variant b: SaveChanges is retried
+		// (short timeout) BEFORE the release. A SaveChanges that returns nil claims the state is saved: at that
+		// moment the persistent store must hold the complete new root.
+		t := s.tries[0]
+		if t == nil || len(f) < 2 {
+			return "bad-op"
+		}
+		claimCheck := func(what string) {
+			cd := freshDir("c04claim")
+			grocksdb.FakeClone(s.dir, cd)
+			_, _, missing, err := walkRoot(cd, s.version, t.mpt.GetRoot())
+			if missing || err != nil {
+				s.fail("C04", "%s reported success but the persistent store does not hold the complete root %s (missing=%v err=%v)", what, rootStr(t.mpt.GetRoot()), missing, err)
+			}
+			grocksdb.FakeReset(cd)
+		}
+		waitFor := func(cond func() bool, d time.Duration) bool {
+			deadline := time.Now().Add(d)
+			for !cond() {
+				if time.Now().After(deadline) {
+					return false
+				}
+				time.Sleep(200 * time.Microsecond)
+			}
+			return true
+		}
+		w0 := grocksdb.FakeWrites(s.dir)
+		grocksdb.FakeStall(s.dir, true)
+		ctx, cancel := context.WithCancel(context.Background())
+		cancel()
+		if err := t.mpt.SaveChanges(ctx, s.pndb, false); err == nil {
+			claimCheck("a SaveChanges that left through a cancelled context while its batch was stalled")
+		}
+		waitFor(func() bool { return grocksdb.FakeStalledWriters(s.dir) >= 1 }, 2*time.Second)
+		if f[1] == "b" {
+			ctx2, cancel2 := context.WithTimeout(context.Background(), 20*time.Millisecond)
+			err2 := t.mpt.SaveChanges(ctx2, s.pndb, false)
+			cancel2()
+			if err2 == nil {
+				claimCheck("a SaveChanges retried while the first batch was still stalled")
+			}
+			waitFor(func() bool { return grocksdb.FakeStalledWriters(s.dir) >= 2 }, 50*time.Millisecond)
+		}
+		n := int64(grocksdb.FakeStalledWriters(s.dir))
+		grocksdb.FakeRelease(s.dir)
+		if !waitFor(func() bool { return grocksdb.FakeWrites(s.dir) >= w0+n && grocksdb.FakeStalledWriters(s.dir) == 0 }, 5*time.Second) {
+			s.fail("*", "harness: the stalled writers did not finish after the release")
+		}
+		s.tags["save-timeout-"+f[1]] = true
+		return "ok"
+
+	case "save-fail":
+		// the store fails the batch write: SaveChanges must report an error EVERY time (its result is picked by a
+		// select over an error channel and a done channel)
+		t := s.tries[0]
+		if t == nil {
+			return "bad-op"
+		}
+		for i := 0; i < 60; i++ {
+			grocksdb.FakeFailNext(s.dir)
+			if err := t.mpt.SaveChanges(context.Background(), s.pndb, false); err == nil {
+				s.fail("C04", "SaveChanges reported success although its batch write failed (attempt %d of 60)", i+1)
+				break
+			}
+		}
+		s.tags["save-fail"] = true
+		return "ok"
 
 	case "save", "crash-save":
 		t := s.tries[0]
